@@ -90,25 +90,7 @@ PCmp(t, i, env) == LET r == PCat(t, i, env) IN IF r.ok THEN PCmpR(t, r.p, r.v, e
 \* value of a complete formula; [acc |-> FALSE] when the token sequence is not a formula of the operator grammar
 Ideal(t, env) == LET r == PCmp(t, 1, env) IN IF r.ok /\ r.p = Len(t) + 1 THEN [acc |-> TRUE, v |-> r.v] ELSE [acc |-> FALSE, v |-> IntV(0)]
 
-\* ---- Guards of the open C01 findings (root causes in the right-recursive token sets / flat emission) ----
-\* scan one pass, keeping per bracket level: any = a binary operator or unary sign was seen, ar = an arithmetic
-\* binary operator or a unary sign was seen.  prevOperand: the previous token ended an operand.
-RECURSIVE Scan(_, _, _, _, _)
-Scan(t, i, stack, prevOperand, acc) ==
-  IF i > Len(t) THEN acc
-  ELSE LET x == t[i] top == stack[Len(stack)] rest == SubSeq(stack, 1, Len(stack) - 1) IN
-    IF x = "LP" THEN Scan(t, i + 1, Append(stack, [any |-> FALSE, ar |-> FALSE]), FALSE, acc)
-    ELSE IF x = "RP" THEN Scan(t, i + 1, rest, TRUE, acc)
-    ELSE IF x = "PCT" THEN Scan(t, i + 1, stack, TRUE,
-                                acc \cup (IF i < Len(t) /\ t[i + 1] = "AMP" THEN {"C01-F3"} ELSE {}))
-    ELSE IF x \in {"PLUS", "MINUS"} /\ ~prevOperand       \* unary sign
-         THEN Scan(t, i + 1, Append(rest, [any |-> TRUE, ar |-> TRUE]), FALSE, acc)
-    ELSE IF x \in {"PLUS", "MINUS", "MUL", "DIV"}
-         THEN Scan(t, i + 1, Append(rest, [any |-> TRUE, ar |-> TRUE]), FALSE, acc)
-    ELSE IF x = "AMP"
-         THEN Scan(t, i + 1, Append(rest, [any |-> TRUE, ar |-> top.ar]), FALSE, acc \cup (IF top.ar THEN {"C01-F2"} ELSE {}))
-    ELSE IF x \in CmpOps
-         THEN Scan(t, i + 1, Append(rest, [any |-> TRUE, ar |-> top.ar]), FALSE, acc \cup (IF top.any THEN {"C01-F1"} ELSE {}))
-    ELSE Scan(t, i + 1, stack, TRUE, acc)                  \* operand
-Guards(t) == Scan(t, 1, <<[any |-> FALSE, ar |-> FALSE]>>, FALSE, {})
+\* ---- Guards of open C01 findings: none.  (C01-F1 / C01-F2 - comparisons and & grouping only the operand to their left - were
+\* repaired in the translator: operands and operators of one bracket level are collected first and grouped by Excel's precedence.)
+Guards(t) == {}
 =============================================================================
